@@ -1,6 +1,6 @@
 (* C02 — Combine groups job outputs into an exact, ordered partition. *)
 From Coq Require Import Permutation Sorting.Sorted.
-From Pydra Require Import Base.Prelude Model.State Spec.State Proofs.State Proofs.StateComb Proofs.StateProj Proofs.StateClass.
+From Pydra Require Import Base.Prelude Model.State Spec.State Proofs.State Proofs.StateComb Proofs.StateProj Proofs.StateClass Proofs.StateClass2.
 
 (* the property at full strength: for every well-formed splitter, every non-empty combiner subset of its fields
    and all non-empty lists, the groups the model of State.prepare_states computes are the reference partition *)
@@ -114,6 +114,56 @@ Example C02_class_example :
     Some [[0; 1; 6; 7; 12; 13]; [2; 3; 8; 9; 14; 15]; [4; 5; 10; 11; 16; 17]] /\
   (* the F02 witness is not in the class and the condition fails there *)
   good_removalb (Outer [Fld 0; Outer [Fld 1; Inner [Fld 2; Fld 3]]]) [0; 1] = false.
+Proof. repeat split; vm_compute; reflexivity. Qed.
+
+(* a wider SYNTACTIC class: flat outer products whose operands are plain fields or inner PAIRS of plain fields,
+   [f1, (g1,g2), f3, (h1,h2), ...], at least two operands, all fields distinct, ANY non-empty combiner over the fields
+   (a pair is then combined as a whole, because combining one of its fields links the other).  `atom`, `sa`, `afields`
+   are defined in Proofs/StateClass2.v: AF f is the field f, AP g1 g2 the tuple (g1, g2). *)
+Theorem C02_good_removal_class_pairs : forall (L : list atom) (comb : list nat),
+  2 <= List.length L -> NoDup (flat_map afields L) -> comb <> [] -> (forall c, In c comb -> In c (flat_map afields L)) ->
+  good_removalb (Outer (map sa L)) comb = true.
+Proof.
+  intros L comb Len N Hne Hsub. destruct L as [|a0 [|a1 rest]]; cbn [List.length] in Len; try lia.
+  exact (good_removal_atoms a0 a1 rest comb N Hne Hsub).
+Qed.
+Print Assumptions C02_good_removal_class_pairs.
+
+Theorem C02_class_pairs_groups : forall (e : env) (L : list atom) (comb : list nat),
+  2 <= List.length L -> NoDup (flat_map afields L) -> comb <> [] -> (forall c, In c comb -> In c (flat_map afields L)) ->
+  (forall f, In f (flat_map afields L) -> nprod (e f) >= 1) ->
+  groups_of (prepare_combined e (Outer (map sa L)) comb) = spec_groups e (Outer (map sa L)) comb.
+Proof.
+  intros e L comb Len N Hne Hsub Pos. destruct L as [|a0 [|a1 rest]]; cbn [List.length] in Len; try lia.
+  exact (atoms_groups e a0 a1 rest comb N Hne Hsub Pos).
+Qed.
+Print Assumptions C02_class_pairs_groups.
+
+(* non-vacuity, and why the class stops at pairs: with an inner group of THREE fields the condition fails exactly when
+   the first operand is combined and the first surviving operand is that group (the removal then pops a '.' of the
+   group instead of its '*': the F02 mechanism); nested all-outer trees satisfy the condition on every example tried *)
+Example C02_class_pairs_example :
+  let s := Outer (map sa [AP 1 2; AF 0; AP 3 4; AF 6]) in
+  good_removalb s [0; 1] = true /\ good_removalb s [2] = true /\ good_removalb s [4; 6; 1] = true /\
+  groups_of (prepare_combined (fun f => [2]) s [0; 1]) = spec_groups (fun f => [2]) s [0; 1] /\
+  good_removalb (Outer [Fld 0; Inner [Fld 1; Fld 2; Fld 3]]) [0] = false /\
+  good_removalb (Outer [Inner [Fld 1; Fld 2]; Fld 0; Inner [Fld 3; Fld 4; Fld 5]; Fld 6]) [0; 1] = false /\
+  good_removalb (Outer [Inner [Fld 1; Fld 2]; Fld 0; Inner [Fld 3; Fld 4; Fld 5]; Fld 6]) [3] = true /\
+  good_removalb (Outer [Outer [Fld 0; Outer [Fld 1; Outer [Fld 2; Fld 3]]]; Outer [Outer [Fld 4; Fld 5]; Fld 6]]) [0; 4; 5] = true.
+Proof. cbv zeta. repeat split; vm_compute; reflexivity. Qed.
+
+(* nested all-outer trees: NOT proved as a class. Evidence only (a complete sweep of every non-empty combiner of four
+   nested trees with 5-7 fields, by vm_compute): the condition holds on all of them, i.e. the count-based removal returned
+   exactly the RPN of the pruned tree there, not merely an equivalent re-bracketing. *)
+Fixpoint all_subsets (l : list nat) : list (list nat) :=
+  match l with [] => [[]] | x :: r => all_subsets r ++ map (cons x) (all_subsets r) end.
+Definition all_combiners_good (s : spl) : bool :=
+  forallb (fun c => match c with [] => true | _ => good_removalb s c end) (all_subsets (leaves s)).
+Example C02_nested_outer_examples :
+  all_combiners_good (Outer [Outer [Fld 0; Fld 1]; Outer [Fld 2; Outer [Fld 3; Fld 4]]]) = true /\
+  all_combiners_good (Outer [Outer [Outer [Fld 0; Fld 1]; Fld 2]; Outer [Fld 3; Fld 4; Fld 5]]) = true /\
+  all_combiners_good (Outer [Fld 0; Outer [Outer [Fld 1; Fld 2]; Outer [Fld 3; Fld 4]]; Fld 5]) = true /\
+  all_combiners_good (Outer [Outer [Fld 0; Outer [Fld 1; Outer [Fld 2; Fld 3]]]; Outer [Outer [Fld 4; Fld 5]; Fld 6]]) = true.
 Proof. repeat split; vm_compute; reflexivity. Qed.
 
 (* finding F02b: the declared nesting of the outputs (State.depth, used by nest_output_type) is computed from the
